@@ -187,3 +187,32 @@ PROPS["C15"] = dict(
     trusted_base=["Model/SvgBuilder.v follows WithSvg in builder.rs; Verb numbering regenerated from path.rs (Gen/Constants.v)"],
     assumptions=["finite coordinates", "arc geometry supplied by the real code (oracle)"],
 )
+
+PROPS["C04"] = dict(
+    level="fault_enumeration",
+    level_text="Fault enumeration with a Coq-verified checker: for every public entry point of the fill and stroke "
+               "tessellators and the basic shapes, on a set of paths / shapes, the builder refuses the k-th vertex for EVERY "
+               "k up to the un-faulted vertex count, and u16 index buffers are pre-filled so that the j-th new vertex "
+               "overflows; each recorded call trace is decided by the Gallina checker trace_ok, PROVED sound (Props/C04.v): "
+               "an accepted failed trace restores any BuffersBuilder's buffers exactly, an accepted successful trace keeps "
+               "the old contents as a prefix and its triangles only use ids returned since begin; ids do not wrap in the "
+               "index type. A translator regenerates from the Rust source the control skeleton of every function that "
+               "opens/closes a geometry and Coq re-proves that none can leave between begin and end without abort.",
+    level_note="Theorems cover the BuffersBuilder state machine and the trace checker for all buffers/traces; that the "
+               "tessellators produce accepted traces for all inputs is enumerated (every fault position on the listed "
+               "inputs), not proved. The skeleton translator is a regex/brace matcher over fill.rs, stroke.rs, "
+               "basic_shapes.rs (trusted).",
+    technique="fault enumeration over every vertex position + Coq-verified trace checker + generated skeleton obligation",
+    coq_targets=["theories/Props/C04.vo", "theories/Run/C04.vo"],
+    props_file="theories/Props/C04.v",
+    props_module="Props.C04",
+    harness=[dict(sub="c04", profile="debug"), dict(sub="c04", profile="release")],
+    rule="jobs = {6 fill entry points, 6 stroke entry points (joins/caps rotating)} x {square, bow-tie + open triangle, "
+         "curved, curved with 2 attributes, empty path, single point, random paths} + fill/stroke of rectangle, circles "
+         "(incl. radius 0 and 50), ellipse, empty rectangle; per job: un-faulted run on pre-filled buffers, refusal of the "
+         "k-th vertex for every k (every k-th when > 60 vertices in the quick tier), u16 buffers pre-filled to 65535-j; "
+         "non-trivial = trace with more than 2 calls",
+    exhaustive_note="every fault position k for each listed job (thorough tier; quick tier subsamples jobs with > 60 vertices)",
+    trusted_base=["Model/GeomBuilder.v follows BuffersBuilder in geometry_builder.rs; tools/gen.py skeleton translator"],
+    assumptions=["vertex_offset chosen by the user does not overflow u32 (not checked by lyon)"],
+)
